@@ -301,7 +301,8 @@ func checkURIAgainstRedirects(client Client, uri string) error {
 		for _, uriGlob := range globClient.RedirectURIGlobs() {
 			isMatch, err := doublestar.Match(uriGlob, uri)
 			if err != nil {
-				return oidc.ErrServerError().WithParent(err)
+				// the redirect_uri is not verified at this point: never redirect this error
+				return oidc.ErrServerError().WithRedirectDisabled().WithParent(err)
 			}
 			if isMatch {
 				return nil
